@@ -126,6 +126,10 @@ class Rename:
             job_set.finished_job()
         if self._is_renaming_a_module():
             resource = self.old_pyname.get_object().get_resource()
+            if resource is None:
+                raise exceptions.RefactoringError(
+                    "A builtin or extension module has no file to rename."
+                )
             if self._is_allowed_to_move(resources, resource):
                 self._rename_module(resource, new_name, changes)
         return changes
